@@ -158,6 +158,7 @@ fn spaces(id: &str, tier: Tier) -> Vec<Box<dyn Space>> {
             v.push(Box::new(scale_family(true)));
             v.push(Box::new(unicode_family()));
             v.push(Box::new(relation_family()));
+            v.push(Box::new(collision_family()));
         }
     }
     v
